@@ -11,3 +11,7 @@ open Cst.C06
 #print axioms loser_never_tears_down
 #print axioms comp_one_is_unsound
 #print axioms ordering_facts
+#print axioms teardown_frees_each_once
+#print axioms teardown_safe
+#print axioms teardown_counter
+#print axioms teardown_shape_facts
